@@ -212,6 +212,14 @@ func TestWorker(t *testing.T) {
 		for _, l := range res.Trace {
 			fmt.Println(l)
 		}
+		pk := make([]string, 0, len(res.Params))
+		for k := range res.Params {
+			pk = append(pk, k)
+		}
+		sort.Strings(pk)
+		for _, k := range pk {
+			fmt.Printf("param %s = %s\n", k, res.Params[k])
+		}
 		return
 	case "digest":
 		for _, seed := range job.Seeds {
